@@ -9,7 +9,7 @@ import itertools
 from typing import Dict, List, Optional, Tuple
 
 from ..db import ProgramDB, FuncInfo, ClassInfo, AnalysisError, unparse, own_nodes, dotted
-from ..facts import returns_of, bind_args, fn_params, resolve_call_target, own_calls, call_attr
+from ..facts import returns_of, bind_args, fn_params, resolve_call_target, own_calls, call_attr, is_cache_switch_call
 from ..framework import inst, HOLDS, VIOLATION, UNDECIDED, INFO, Instance
 from ..abseval import AbsEval, State, const, TOP, TRUE, FALSE, truth
 from ..cfg import CFG
@@ -198,7 +198,7 @@ def comparator_truth_profile(db: ProgramDB):
         def call_hook(call, st, ev, res=res):
             if call_attr(call) == "apply_operation":
                 return const(res)
-            if call_attr(call) == "is_caching_enabled" or dotted(call.func) == "is_caching_enabled":
+            if is_cache_switch_call(db, m, call):
                 return FALSE
             return None
         ev = AbsEval(db, m, cfg, call_hook=call_hook)
